@@ -32,6 +32,9 @@ RULE = ("history_spec (merges, symlinks, exec bits, metadata, tags) built throug
 ASSUMPTIONS = [
     "StrictTestament3 (root entry with last-changed revision) is compared only "
     "when the root model (rich root or not) is unchanged by the action",
+    "the target of an upgrade is not older than the format of any component "
+    "it meets (a lightweight checkout whose tree is in a newer format than the "
+    "target's makes Convert.convert loop for ever: not generated, see report)",
     "a reconfiguration that destroys the working tree is only compared at branch "
     "level afterwards; when a later step creates a tree again its files must be "
     "the ones that were there when the (clean) tree was destroyed",
@@ -93,8 +96,18 @@ def observe(path, v3, tree_path=None):
     out = {}
     with b.lock_read():
         repo = b.repository
-        anc = sorted(r for r in repo.get_graph().find_unique_ancestors(
-            b.last_revision(), [b"null:"]))
+        graph = repo.get_graph()
+        tip_anc = set(graph.find_unique_ancestors(b.last_revision(),
+                                                  [b"null:"]))
+        # "every revision": the history of the tip and what the tags name
+        anc = set(tip_anc)
+        if b.supports_tags():
+            for r in sorted(set(b.tags.get_tag_dict().values())):
+                if r not in anc and repo.has_revision(r):
+                    anc.update(graph.find_unique_ancestors(r, [b"null:"]))
+        anc = sorted(anc)
+        out["tip_ancestry"] = sorted(r.decode() for r in tip_anc)
+        out["repo"] = repo.user_url
         classes = ["Testament", "StrictTestament"] + (
             ["StrictTestament3"] if v3 else [])
         out["testaments"] = {
@@ -443,6 +456,37 @@ def run_reconfigure(case, env):
         keys = ["tip", "tags", "testaments"]
         if pre["tree"] is not None and post["tree"] is not None:
             keys.append("fs")
+        # every revision that had a testament still has it, unaltered
+        # (a repository that knows more revisions may make more tags resolve)
+        lost = sorted(set(pre["testaments"]["Testament"]) -
+                      set(post["testaments"]["Testament"]))
+        altered = {c: {r: [v, post["testaments"][c].get(r)]
+                       for r, v in pre["testaments"][c].items()
+                       if r not in lost and post["testaments"][c].get(r) != v}
+                   for c in pre["testaments"]}
+        check(not any(altered.values()),
+              "C52/reconfigure-%s-changed-testaments" % step,
+              [src, action["steps"], altered])
+        keys.remove("testaments")
+        if lost:
+            from breezy import repository as _repository
+            try:
+                old = _repository.Repository.open(pre["repo"])
+                left_behind = all(old.has_revision(bz.enc(r)) for r in lost)
+            except (errors.NoRepositoryPresent, errors.NotBranchError):
+                left_behind = False
+            if left_behind and post["repo"] != pre["repo"] and \
+                    not set(lost) & set(pre["tip_ancestry"]):
+                # open finding (reported at the end of the case): the
+                # repository the branch moves to is filled from the branch tip
+                # (and the pending merges) only - revisions that only a tag
+                # names stay behind in the repository it used before
+                deferred.append((
+                    "C52/reconfigure-to-another-repository-leaves-tagged-"
+                    "revisions-behind", [src, action["steps"], step, lost]))
+            else:
+                check(False, "C52/reconfigure-%s-lost-revisions" % step,
+                      [src, action["steps"], lost, pre["repo"], post["repo"]])
         for k in keys:
             check(post[k] == pre[k], "C52/reconfigure-%s-changed-%s" % (
                 step, k), [src, action["steps"], dd(pre[k], post[k])])
